@@ -24,6 +24,10 @@ func (tree *ParserT) parseLambdaExecFalse(sigil rune) ([]rune, error) {
 		return r, err
 	}
 
+	if tree.nextChar() != ']' {
+		return r, raiseError(tree.expression, nil, tree.charPos, "missing closing bracket, ']', after lambda")
+	}
+
 	return r, nil
 }
 
